@@ -92,6 +92,27 @@ def main : IO Unit := do
     for b in ([#[], #[9, 5, 1], #[3, -1, 8]] : List (Array Int)) do
       for lo in [(-1 : Int), 0, 1, 3, 4] do
         IO.println (line s!"rackScript {showInts a} {showInts b} {lo}" ((rackScript F a b lo).map toString))
+  let f64 (b : Nat) : Go.F64 := ⟨UInt64.ofNat b⟩
+  let showLinks (ls : Array link) : String :=
+    "[" ++ " ".intercalate (ls.toList.map fun l => s!"{l.a}:{l.b}:{l.w.bits}") ++ "]"
+  -- the bit patterns of run.go's weights: 1.5 | 0, -0, NaN (Go's math.NaN()), -Inf, 2.5e-320 (subnormal), -7.25
+  let wss : List (Array Go.F64) := [#[], #[f64 0x3FF8000000000000],
+    #[f64 0, f64 0x8000000000000000, f64 0x7FF8000000000001, f64 0xFFF0000000000000, f64 5060, f64 0xC01D000000000000]]
+  for n in [(-1 : Int), 0, 1, 3] do
+    for ps in ([#[], #[0, 0], #[1, 0, 0, 1, 2, 2, 1, 2], #[0, 3, 2, 1, -1, 0, 5]] : List (Array Int)) do
+      for ws in wss do
+        for flip in [false, true] do
+          IO.println (line s!"meshScript {n} {showInts ps} {ws.size} {flip}"
+            ((meshScript F n ps ws flip).map fun (m, ls) => s!"{m} {showLinks ls}"))
+  for v in [(-1 : Int), 0, 1, 2, 3] do
+    IO.println (line s!"mesh.at {v}" (do
+      let g ← newMesh 3 #[⟨0, 1, f64 0x3FF8000000000000⟩, ⟨2, 2, f64 0xBFE0000000000000⟩, ⟨1, 0, f64 0x7FF8000000000001⟩, ⟨1, 7, f64 0x4008000000000000⟩]
+      let ls ← mesh.at g v
+      pure (showLinks ls)))
+  for xs in ([#[], #[4], #[4, 5, 7, 4]] : List (Array Int)) do
+    for i in [(-1 : Int), 0, 1, 3, 4] do
+      for v in [(4 : Int), 5, 7, 9] do
+        IO.println (line s!"pick {showInts xs} {i} {v}" ((pick xs i v).map toString))
 
 #eval main
 end Selftest
